@@ -394,6 +394,7 @@ class Interp:
         self.summaries = {}
         self.in_progress = set()
         self.changed = False
+        self._raw_nodes = set()
         self.steps = 0
         self.max_steps = int(os.environ.get("TTSA_MAX_STEPS", "2000000"))   # per interpretation: beyond it the run is undecided, never silently cut short
         self.max_seconds = float(os.environ.get("TTSA_MAX_SECONDS", "240"))
@@ -407,6 +408,17 @@ class Interp:
         """-> list of Result.  With ``share`` (the value is about to get a second owner: an assignment from a name,
         an argument of an inlined call) a list / dict named by ``e`` is moved to the heap and its handle returned;
         otherwise handles are replaced by the content they refer to, so that consumers see plain values."""
+        if share and isinstance(e, (ast.BoolOp, ast.IfExp)) and getattr(self.domain, "heap", False):
+            # x or y / a if c else b handing on one of its operands: that operand's own object, not a copy
+            for sub in (e.values if isinstance(e, ast.BoolOp) else (e.body, e.orelse)):
+                self._raw_nodes.add(id(sub))
+            try:
+                return self._eval(e, st, fr)
+            finally:
+                for sub in (e.values if isinstance(e, ast.BoolOp) else (e.body, e.orelse)):
+                    self._raw_nodes.discard(id(sub))
+        if not share and id(e) in self._raw_nodes:
+            share = True
         rs = self._eval(e, st, fr)
         if not getattr(self.domain, "heap", False):
             return rs
@@ -422,7 +434,7 @@ class Interp:
                         continue
                 out.append(r)
             return out
-        if share and isinstance(e, ast.Call):
+        if share and isinstance(e, (ast.Call, ast.Subscript, ast.BoolOp, ast.IfExp)):
             return rs
         if any(r.kind == "val" and is_handle(r.value) for r in rs):
             return [Result(r.kind, unbox(r.value, r.state), r.state) if r.kind == "val" and is_handle(r.value) else r for r in rs]
@@ -915,7 +927,7 @@ class Interp:
                     results.append(r)
                     continue
                 last = i == len(e.values) - 1
-                t = self.domain.truth(r.value)
+                t = self.domain.truth(unbox(r.value, r.state))
                 if last:
                     results.append(r)
                     continue
@@ -1255,7 +1267,7 @@ class Interp:
             return [("raise", r.value, r.state) if r.kind == "exc" else ("next", None, r.state) for r in self.eval(s.value, st, fr)]
         if isinstance(s, ast.Assign):
             out = []
-            shared = isinstance(s.value, (ast.Name, ast.Attribute, ast.Call)) and all(isinstance(t, (ast.Name, ast.Attribute)) for t in s.targets)
+            shared = isinstance(s.value, (ast.Name, ast.Attribute, ast.Call, ast.BoolOp, ast.IfExp, ast.Subscript)) and all(isinstance(t, (ast.Name, ast.Attribute)) for t in s.targets)
             values = self.eval(s.value, st, fr, share=shared)
             if any(isinstance(t, (ast.Tuple, ast.List)) for t in s.targets):
                 values = self._forced(values, fr)   # a, b = map(...): unpacking consumes the iterator
